@@ -391,6 +391,14 @@ func runC03(c *eng.Ctx) {
 					okT = true
 				}
 			}
+			// or the whole range struct is copied
+			for _, s := range p.Sites(pr, func(p *eng.Prog, in ssa.Instruction) bool {
+				st, ok := in.(*ssa.Store)
+				return ok && strings.HasSuffix(p.Desc(st.Addr), ".targetRange") && strings.HasSuffix(p.Desc(st.Val), ".sourceRange")
+			}) {
+				_ = s
+				okT = true
+			}
 			c.Check(okT, "target-range-is-union:"+b, nil, pr, "for a plain compaction the output range "+b+" is the union's "+b, "")
 		}
 		mg := c.Fn(mgT + ".Merge")
@@ -536,13 +544,12 @@ func positionRole(p *eng.Prog, fn *ssa.Function, v ssa.Value) string {
 	if cap == nil {
 		return "?"
 	}
-	// next stream write after the capture in the same block chain
-	b := cap.Block()
-	idx := eng.InstrIndex(cap)
-	for _, in := range b.Instrs[idx+1:] {
+	// next stream write after the capture in the same block chain (looking into a helper that is called there)
+	var roleOf func(in ssa.Instruction, depth int) string
+	roleOf = func(in ssa.Instruction, depth int) string {
 		cl, ok := in.(*ssa.Call)
 		if !ok {
-			continue
+			return ""
 		}
 		d := ""
 		if cl.Common().IsInvoke() {
@@ -557,6 +564,23 @@ func positionRole(p *eng.Prog, fn *ssa.Function, v ssa.Value) string {
 			return "highKeyOffsets"
 		case d == "Write" && strings.Contains(p.Desc(eng.CallRecv(cl)), "kvWriter"):
 			return "fieldMetas"
+		}
+		if g := eng.TransparentCallee(in); g != nil && depth < 2 {
+			for _, gb := range g.Blocks {
+				for _, gi := range gb.Instrs {
+					if r := roleOf(gi, depth+1); r != "" {
+						return r
+					}
+				}
+			}
+		}
+		return ""
+	}
+	b := cap.Block()
+	idx := eng.InstrIndex(cap)
+	for _, in := range b.Instrs[idx+1:] {
+		if r := roleOf(in, 0); r != "" {
+			return r
 		}
 	}
 	return "?"
